@@ -129,7 +129,8 @@ CHECKS = {
         'the script layer in strict / lenient mode on key- and signature-shaped pushes that are not keys / signatures (Model/TxStrict.v on the C18 parser and C13 DER models: '
         'strict_clean_accepted, lenient_refusal, lib_roundtrip_script_layer), the signed SetCompact target (target_signed_exact), wire and Block.target source ties. Tie: bsess requests '
         '(four entry points, limits below/at/above the count), shaped-data stream in 11 script positions, 65534/65535/65536-byte scripts; two further known findings '
-        '(strict_refuses_signature_shaped, multisig_count_mismatch).',
+        '(strict_refuses_signature_shaped, multisig_count_mismatch).'
+        ' Round 4: apif requests (the same fields handed to the API in every argument form: witness stack as list / tuple / hex strings / ONE bytes string with 1-, 3-, 5-byte length prefixes in every position, txid / scripts as bytes or hex, Input / Output objects) and segwit coinbases with 31 adversarial witness reserved values (truncated pushes, PUSHDATA prefixes, opcode- and DER-looking bytes) as transactions, blocks and reader sessions.',
    design_ref='DESIGN.md section 6 C06, section 9',
    note='Partial: the script layer (Script.parse, Input.update_scripts re-building unlocking scripts) is treated as the identity on bytes and checked by '
         'correspondence only; readers_agree for the two block readers is not a theorem. lib_roundtrip is proved under the guard quirk_free; each excluded '
@@ -233,7 +234,8 @@ CHECKS = {
         'account-level private / account-level public / single / multisig), request_for_another_witness_type_refused, new_account_needs_the_private_master, '
         'key_request_guards_are_the_documented_ones (the guards of keys_for_path / new_account regenerated from wallets.py equal a frozen copy). Tie: every wallet configuration x '
         'every key-handing entry point x fitting and non-fitting arguments, each misfit asked twice; eight known classes of requests the library answers although it should refuse.'
-        ' Round 3: a frozen corpus of seeds (found by search with the harness\'s own BIP32) whose private key / chain code / public x / fingerprint starts with zero bytes at each path level, BIP32 vectors 1-4, explicit full paths naming an account: hardened_parent_key_is_serialised_on_32_bytes, private_key_serialisation_is_injective.',
+        ' Round 3: a frozen corpus of seeds (found by search with the harness\'s own BIP32) whose private key / chain code / public x / fingerprint starts with zero bytes at each path level, BIP32 vectors 1-4, explicit full paths naming an account: hardened_parent_key_is_serialised_on_32_bytes, private_key_serialisation_is_injective.'
+        ' Round 4: multisig wallets driven by explicit [change, index] paths interleaved with new_key / bulk creation (multisig_explicit), and kprun requests: ten custom key_path shapes incl. Bitcoin-Core style hardened change / address_index levels with bulk creation, scan, new_account, reopen, judged by an own BIP32 re-derivation of every stored row along its stored path (oracle-level, no Gallina model of custom key paths); known finding keypath_no_account_level_ignores_account.',
    design_ref='DESIGN.md section 6 C09, section 9',
    note='Density of indices over implicit-only histories and watch-only/full agreement of public keys (needs ckd_commute, C03) are checked by the oracle, not '
         'proved. Multisig key books are C10. Two defects repaired by fix: commits. Closed under the global context.',
@@ -265,7 +267,8 @@ CHECKS = {
         'names the field), address_is_standard_frozen, address_by_name_is_standard, frozen_table_is_reference_except_deviations. Tie: boundary/sparse/random scalars and the refused set through every format, every public encoding, 250+ off-curve x, '
         'every network x script type x encoding x entry point in the quick tier (three-way: library, extracted frozen Coq table, frozen Python table); independent '
         'pure-Python curve/hash/address oracle whose version bytes come from harness/spec_networks.py, never from /repo.'
-        ' Round 3: addrx requests (the full script_type x encoding x witness_type argument cube of Address / Key.address / HDKey.address / Address.parse on every network) and sess requests (address reads interleaved with network_change and flag changes on one key object), oracle-level; two known findings (p2tr_explicit_taproot_witver0, address_prefix_arg_reuses_cached_object).',
+        ' Round 3: addrx requests (the full script_type x encoding x witness_type argument cube of Address / Key.address / HDKey.address / Address.parse on every network) and sess requests (address reads interleaved with network_change and flag changes on one key object), oracle-level; two known findings (p2tr_explicit_taproot_witver0, address_prefix_arg_reuses_cached_object).'
+        ' Round 4: route requests: a corpus of structurally special scalars (last byte 01, leading zero bytes, first byte 00/80, 1, n-1, around 2^248) through every import format and through the WIF and BIP38 text routes (own Base58Check / AES-256 / BIP38 reference, frozen corpus corpus/C04/bip38.json with pinned hash): import_bytes32_exact, import_bytes33_marker; known findings hdkey_bip38_default_witness_refused, prefix_ascii_hex.',
    design_ref='DESIGN.md section 6 C04, section 9',
    note='Primality of p and on_curve(d.G) are premises (no primality certificate checker / EC library installed); the group law is not proved; fastecdsa point '
         'multiplication and the hash transcriptions are validated by correspondence. Five known findings (incl. regtest carrying mainnet version bytes); four defects repaired. Closed under the global context.',
@@ -281,7 +284,8 @@ CHECKS = {
         ' Round 2: lib_inverse_tx / lib_reparse_is_destination / lib_address_tx_roundtrip (through Transaction.parse), lib_lock_is_spec_hdkey (HDKey destinations, every witness type '
         'and multisig flag), push_classifier_is_modelled (scripts.get_data_type probed on a regenerated table = the model), hash_pushes_are_data, to_bytes_only_touches_hex_text. Tie: '
         'about 100 ADVERSARIAL payloads per length (DER-, key-, script-, opcode-, number- and hex-text-shaped) for every type and network in both directions and through raw transactions; '
-        'HDKey / Key / Address objects in every construction form; contradicting hints. Payload theorems carry the guard hex_guard (complement of the known finding ascii_hex_payload).',
+        'HDKey / Key / Address objects in every construction form; contradicting hints. Payload theorems carry the guard hex_guard (complement of the known finding ascii_hex_payload).'
+        ' Round 4: histories on ONE key object (address() in every script type x encoding, WIF calls, public() copies, network_change, earlier outputs) before the output is built, and argument objects reused from an earlier construction: output_of_hd_key_history_free, hd_cached_reading_refuted; known finding hd_key_left_uncompressed.',
    design_ref='DESIGN.md section 6 C05, section 9',
    note='The address STRING codec is abstract here (decoded content); strings are C11. public_key= and HDKey lock-script paths by correspondence only. Four '
         'defects repaired by fix: commits (witness version into script, foreign-network Address objects, p2sh-segwit Address objects, address next to a public key); one known '
@@ -299,7 +303,8 @@ CHECKS = {
         'in-place mutation / re-signing steps (add_input with its BIP68 version upgrade, set_locktime_*, sign_and_update, shuffle, merge, attribute writes) are modelled; '
         'lib_digest_depends_only_on_fields, session_no_hidden_state, session_digest_is_fresh_digest, version_copies_agree, session_digest_ok: after any list of steps the '
         'digest is the consensus digest of what raw() serialises now; sessions are replayed on real objects with an oracle that re-parses raw() at every observation.'
-        ' Round 3: inputs described WITHOUT their keys (address / public_hash / locking_script / redeemscript only, keys supplied later to sign() as Key, HDKey, hex, bytes, WIF) as session start forms; known finding nested_p2wpkh_from_locking_script.',
+        ' Round 3: inputs described WITHOUT their keys (address / public_hash / locking_script / redeemscript only, keys supplied later to sign() as Key, HDKey, hex, bytes, WIF) as session start forms; known finding nested_p2wpkh_from_locking_script.'
+        ' Round 4: inf requests: inputs built through ten construction forms that never pass witness_type (keys / keys + locking script / keys + address / key-less, through add_input and through Input objects); the witness type the library holds and the preimage it signs are compared with the kind of the spent output (wrong_witness_type_refuted); known finding nested_from_locking_script_keyed.',
    design_ref='DESIGN.md section 6 C01, section 9',
    note='Closed under the global context. The legacy path ignores non-ALL hash types (known finding legacy_non_all, refuted in Coq); OP_CODESEPARATOR and taproot '
         'digests are outside the model. Three defects repaired by fix: commits (BIP143 hashOutputs SINGLE/NONE swapped; input chosen by index_n attribute; stale scriptSig after re-signing a P2PK input). '
@@ -332,7 +337,8 @@ CHECKS = {
         'wif_version_never_starts_hd_prefix, hd_prefix_shape (table facts re-proved by vm_compute on every regeneration). prefixes_wif_rows_are_frozen_spec / all_rows_are_frozen_rows (regenerated table = frozen specification table), slip132_prefix_determines_metadata, xkey_roundtrip_exact_metadata, and export SESSIONS on one object: session_is_map_of_stateless_exports, session_answer_depends_on_fields_only, exports_leave_fields_unchanged, wif_after_explicit_prefix_is_plain_wif, wif_after_network_change_is_new_network, '
         'wif_after_address_follows_compressed_attribute, session_wif_roundtrip. Tie: sessions of every export method with explicit arguments, network_change, public(), encrypt on one Key/HDKey object (each answer recomputed from protocol definitions and the frozen table); exhaustive table stream (all rows, '
         'all 256 version bytes), export/import round trips with leading-zero secrets, depths 0..255, boundary child numbers, hints on/off, mutated strings.'
-        ' Round 3: pubrt (public-only imports in every form with points whose x or y has 1..62 leading zero nibbles, every export re-imported) and bip38rt (BIP38 through Key / HDKey / bip38_decrypt, compressed and uncompressed, every network), oracle-level.',
+        ' Round 3: pubrt (public-only imports in every form with points whose x or y has 1..62 leading zero nibbles, every export re-imported) and bip38rt (BIP38 through Key / HDKey / bip38_decrypt, compressed and uncompressed, every network), oracle-level.'
+        " Round 4: BIP38 texts of 13 special secrets (tails 01 / 0101 / 00, leading 00 / 80) frozen from the independent encryptor (corpus/C12/bip38_special.json) and imported through Key / HDKey / bip38_decrypt, plus the library's own encrypt -> import on compressed keys ending in 01: bip38_secret_32_bytes_kept, bin_compressed_marker_needs_33_65_129.",
    design_ref='DESIGN.md section 6 C12, section 9',
    note='Closed under the global context. Point (de)compression is an abstract pair of maps here (C04 proves it); SHA-256 is the executable Gallina one. One known '
         'finding (HDKey compressed=False is not representable in BIP32 serialisation); three defects repaired by fix: commits (incl. the WIF cache ignoring the compressed flag, found by the session stream).',
